@@ -288,7 +288,8 @@ impl Builder {
     /// Create a [crate::insim::Isi] from this configuration.
     pub fn isi(&self) -> Isi {
         let udpport = match self.proto {
-            Proto::Udp => self.udp_local_address.unwrap().port(),
+            // without a local address the port is only known once the socket is bound
+            Proto::Udp => self.udp_local_address.map_or(0, |addr| addr.port()),
             _ => 0,
         };
 
